@@ -175,6 +175,13 @@ structure PsbChar (c : Cfg) (votes : List (Nat × Vote)) (e th : Nat) (sel : Sel
   complete : (∀ kv ∈ votes, cnt c.t votes kv.2.blk + e ≤ th) → votes ≠ [] → ∀ G, G < c.t.size →
     th < cnt c.t votes G + e → (∀ b, b < c.t.size → th < cnt c.t votes b + e → c.t.depth b ≤ c.t.depth G) →
     (G, c.number G) ∈ sel
+  /-- nothing without votes -/
+  nil : votes = [] → sel = []
+
+theorem psb_nil (c : Cfg) (o : Ord) (ho : o.Valid) (e th : Nat) : psb c o [] e th = [] := by
+  have h0 : (o [0]).votes ([] : List (Vote × Nat)) = [] := List.Perm.eq_nil ((ho [0]).1 [])
+  have h1 : (o [1]).votes ([] : List (Vote × Nat)) = [] := List.Perm.eq_nil ((ho [1]).1 [])
+  simp [psb, directVotes, h0, h1]
 
 theorem total_fun_eq (t : Tree) (votes : List (Nat × Vote)) (e : Nat) :
     total t (directVotes votes) e = fun b => cnt t votes b + e := funext (total_eq t votes e)
@@ -221,7 +228,7 @@ theorem psb_char {c : Cfg} (hw : c.t.WF) {votes : List (Nat × Vote)} (hg : Good
       intro v hv
       obtain ⟨kv, hkv, he⟩ := (hva v).1 hv
       rw [← he]; exact ⟨(hg kv hkv).1, (hg kv hkv).2.1⟩
-    refine ⟨?_, ?_, ?_, ?_⟩
+    refine ⟨?_, ?_, ?_, ?_, ?_⟩
     · apply ancFold_sound hw hkeys
       · intro p hp
         obtain ⟨kv, hkv, he⟩ := vote_of_mem_dv ((hL1 p).1 hp)
@@ -245,6 +252,13 @@ theorem psb_char {c : Cfg} (hw : c.t.WF) {votes : List (Nat × Vote)} (hg : Good
       · exact hyx
       · exact hl
       · exact ⟨p, (hL1 p).2 hp, by rw [hpe]⟩
+    · intro hv
+      subst hv
+      have := psb_nil c o ho e th
+      unfold psb at this
+      simp only [total_fun_eq] at this
+      rw [hb] at this
+      simpa using this
   · -- the first loop selected something: early return
     have hne : (!(((o [0]).votes (directVotes votes)).foldl
         (dirStep (fun b => cnt c.t votes b + e) th) []).isEmpty) = true := by
@@ -261,7 +275,7 @@ theorem psb_char {c : Cfg} (hw : c.t.WF) {votes : List (Nat × Vote)} (hg : Good
       · cases h
       · obtain ⟨kv, hkv, hke⟩ := vote_of_mem_dv ((hL0 p).1 hp)
         exact ⟨kv, hkv, by rw [hke]; exact ht, by rw [hke]; exact he⟩
-    refine ⟨?_, ?_, ?_, ?_⟩
+    refine ⟨?_, ?_, ?_, ?_, ?_⟩
     · intro q hq
       obtain ⟨kv, hkv, ht, he⟩ := hmem q hq
       subst he
@@ -277,5 +291,10 @@ theorem psb_char {c : Cfg} (hw : c.t.WF) {votes : List (Nat × Vote)} (hg : Good
       obtain ⟨kv, hkv, ht, _⟩ := hmem q hq
       have := hD kv hkv
       omega
+    · intro hv
+      obtain ⟨q, hq⟩ := List.exists_mem_of_ne_nil _ hb
+      obtain ⟨kv, hkv, _, _⟩ := hmem q hq
+      subst hv
+      cases hkv
 
 end Gossamer.C21
